@@ -9,6 +9,18 @@ B36 = "0123456789abcdefghijklmnopqrstuvwxyz"
 
 
 # ----------------------------------------------------------------------------- terms
+def room_opts(rng):
+    """the two documented options of Rooms / ValuedRooms (heyawake uses skip_on_error=True, allow_redundant_border=False)"""
+    r = rng.random()
+    if r < 0.5:
+        return []
+    return [{"skip_on_error": rng.random() < 0.5, "allow_redundant_border": rng.random() < 0.5}]
+
+
+def _vr(rng, inner):
+    return ["ValuedRooms", inner] + room_opts(rng)
+
+
 def build(t):
     k = t[0]
     if k == "FixStr":
@@ -36,9 +48,9 @@ def build(t):
     if k == "Grid":
         return PS.Grid(build(t[1]), t[2], t[3]) if t[2] is not None else PS.Grid(build(t[1]))
     if k == "Rooms":
-        return PS.Rooms()
+        return PS.Rooms(**(t[1] if len(t) > 1 else {}))
     if k == "ValuedRooms":
-        return PS.ValuedRooms(build(t[1]))
+        return PS.ValuedRooms(build(t[1]), **(t[2] if len(t) > 2 else {}))
     raise ValueError(k)
 
 
@@ -164,10 +176,10 @@ def gen_top(rng):
     if k < 0.55:
         return ["Seq", gen_element(rng), rng.randint(1, 12)]
     if k < 0.70:
-        return ["Rooms"]
+        return ["Rooms"] + room_opts(rng)
     if k < 0.85:
-        return ["ValuedRooms", rng.choice([["OneOf", [["HexInt"], ["Spaces", -1, "g"]]], ["HexInt"], ["Dict", [0, 1], ["p", "q"]],
-                                           ["OneOf", [["Dict", ["?"], ["."]], ["HexInt"]]]])]
+        return _vr(rng, rng.choice([["OneOf", [["HexInt"], ["Spaces", -1, "g"]]], ["HexInt"], ["Dict", [0, 1], ["p", "q"]],
+                                           ["OneOf", [["Dict", ["?"], ["."]], ["HexInt"]]]]))
     comps = []
     for _ in range(rng.randint(2, 3)):
         c = rng.random()
@@ -181,9 +193,9 @@ def gen_top(rng):
         elif c < 0.74:
             comps.append(["MultiDigit", *rng.choice([(6, 2), (3, 3), (2, 5), (36, 1)])])
         elif c < 0.80:
-            comps.append(["Rooms"])
+            comps.append(["Rooms"] + room_opts(rng))
         elif c < 0.90:
-            comps.append(["ValuedRooms", rng.choice([["OneOf", [["HexInt"], ["Spaces", -1, "g"]]], ["HexInt"], ["Dict", [0, 1], ["p", "q"]]])])
+            comps.append(_vr(rng, rng.choice([["OneOf", [["HexInt"], ["Spaces", -1, "g"]]], ["HexInt"], ["Dict", [0, 1], ["p", "q"]]])))
         else:
             comps.append(["Seq", ["HexInt"], rng.randint(1, 4)])
     return ["Tupl", comps]
